@@ -333,6 +333,8 @@ func checkC09(c *Ctx) {
 		defer rw.Close()
 		attackWorldC09(c, rw, seed)
 	})
+	// rounds in which the key registered for a participant is not a usable key at all
+	c09OddKeys(c, c.Seed*919)
 }
 
 func attackWorldC09(c *Ctx, rw *refWorld, seed uint64) {
